@@ -10,8 +10,8 @@ This module evaluates each entry's inlined IR - IEEE point semantics implemented
 at a fixed list of stored-coordinate points in which at least one coordinate group sits at a singular value, and
 compares with `tables/singular.json`, frozen from the pinned tree and reviewed.  A value that was finite and is now
 NaN/inf, or finite and different, or whose infinity changed sign, is reported; a frozen NaN that became finite is
-not (an improvement cannot break a user relying on the old value being meaningful); values beyond 1e12 (float poles such as
-1/tan(pi)) and infinities are one category, compared by sign only.
+not (an improvement cannot break a user relying on the old value being meaningful); a frozen exact infinity must stay that infinity; a frozen finite value beyond 1e12 (a float
+pole such as 1/tan(pi)) only has to stay unbounded with the same sign.
 """
 from __future__ import annotations
 
@@ -264,7 +264,9 @@ def compare(frozen_row, now_row):
                 continue  # a frozen NaN that became something else is not a broken convention
             # values beyond 1e12 come from a float pole (1/tan(pi)): only "unbounded, with this sign" is a convention
             ux, uy = abs(x) > 1e12, (y == y and abs(y) > 1e12)
-            if y != y or ux != uy or (ux and (x > 0) != (y > 0)):
+            if abs(x) == INF and y != x:
+                bad.append((pk, i, a, b))  # an exact infinity is a convention (z of theta = 0 is +inf, not the largest float)
+            elif y != y or ux != uy or (ux and (x > 0) != (y > 0)):
                 bad.append((pk, i, a, b))
             elif not ux and abs(x - y) > 1e-9 * (1 + abs(x)):
                 bad.append((pk, i, a, b))
@@ -295,4 +297,99 @@ def obligations(ctx, L, rule, modules=None):
                    + (f" (+{len(bad) - 1} more points)" if len(bad) > 1 else ""))
         ctx.ob(rule, name, not bad, msg, {"changed": [[pk, i, a, b] for pk, i, a, b in bad[:6]]} if bad else None, None,
                sample={"points": len(frow)})
+    return n
+
+
+# ---- special values of the scalar arguments (half turns, zero velocity, zero / negative factors) ------------------------
+
+GEN2 = {"xy": (0.7, -1.3), "rhophi": (2.1, -0.4), "z": (0.4,), "theta": (0.9,), "eta": (0.35,), "t": (3.1,), "tau": (1.2,)}
+SPECIAL = [0.0, 1.0, -1.0, PI, -PI, PI / 2, 0.5, -0.5]
+
+
+def _generic_operand(kinds, second):
+    out = []
+    i = 0
+    src = GEN2 if second else {k: v[0] for k, v in GEN.items()}
+    while i < len(kinds):
+        g = GROUP_OF[kinds[i]]
+        out += list(src[g])
+        i += 2 if g in ("xy", "rhophi") else 1
+    return out
+
+
+def _extra_tuples(n):
+    if n == 1:
+        return [(v,) for v in SPECIAL]
+    gen = [0.3, -0.7, 1.1, 0.45]
+    out = [tuple(0.0 for _ in range(n)), tuple(gen[:n])]
+    for sp in (PI, PI / 2, 1.0, -1.0):
+        for pos in range(n):
+            out.append(tuple(sp if j == pos else gen[j] for j in range(n)))
+            out.append(tuple(sp if j == pos else 0.0 for j in range(n)))
+    return out
+
+
+def special_modules(L):
+    out = []
+    for mn in L.mods:
+        es = entries_of(L, mn)
+        if es and 1 <= es[0].nextra <= 4 and len(es[0].ops) <= 2:
+            out.append(mn)
+    return out
+
+
+def evaluate_special(L, modules=None):
+    inl = ir.Inliner()
+    table = {}
+    for mn in special_modules(L):
+        if modules is not None and not modules(L.short(mn)):
+            continue
+        for e in entries_of(L, mn):
+            node = inl.inline(e.fn, e.args())
+            outs = ir.outputs(node)
+            names = e.coord_names()
+            coords = []
+            for oi, ks in enumerate(e.kinds):
+                coords += _generic_operand(ks, oi == 1)
+            rows = {}
+            for ex in _extra_tuples(e.nextra):
+                env = dict(zip(names, coords))
+                env.update({f"extra{i}": v for i, v in enumerate(ex)})
+                memo: dict = {}
+                vals = []
+                for o in outs:
+                    try:
+                        vals.append(_enc(ieee(o, env, memo)))
+                    except (ValueError, KeyError, TypeError) as err:
+                        vals.append(f"error:{type(err).__name__}")
+                rows[_key(ex)] = vals
+            table[e.name] = rows
+    return table
+
+
+def load_frozen_special():
+    p = VERIF / "tables" / "special_args.json"
+    return json.loads(p.read_text()) if p.exists() else None
+
+
+def special_obligations(ctx, L, rule, modules):
+    frozen = load_frozen_special()
+    if frozen is None:
+        from .core import AnalysisError
+        raise AnalysisError("tables/special_args.json missing")
+    now = evaluate_special(L, modules)
+    n = 0
+    for name, frow in sorted(frozen.items()):
+        if not modules(name.split("[")[0]):
+            continue
+        nrow = now.get(name)
+        if nrow is None:
+            continue
+        n += 1
+        bad = compare(frow, nrow)
+        msg = ""
+        if bad:
+            pk, i, a, b = bad[0]
+            msg = (f"with scalar argument(s) ({pk}) result component {i} was {a} on the pinned tree and is now {b}" + (f" (+{len(bad) - 1} more)" if len(bad) > 1 else ""))
+        ctx.ob(rule, name, not bad, msg, {"changed": [[pk, i, a, b] for pk, i, a, b in bad[:6]]} if bad else None, None, sample={"argument_tuples": len(frow)})
     return n
